@@ -143,18 +143,34 @@ func (queue *PacketQueue) Write(p []byte) (int, error) {
 
 // Read methods
 
+// unread returns the amount of bytes between the position and the end
+// of the queue.
+func (queue *PacketQueue) unread() int {
+	n := 0
+	for i := queue.indexPacket; i < len(queue.queue); i++ {
+		n += len(queue.queue[i].Data)
+	}
+	return n - queue.indexData
+}
+
 // Bytes returns a slice of bytes from the queue.
 //
-// The returned byte slice will always be of length n.
-//
-// If there aren't enough bytes to read n bytes Bytes will return
-// a wrapped io.EOF. The returned byte slice will still be of length n.
+// If there aren't enough bytes to read n bytes Bytes consumes all
+// remaining bytes and returns ErrNotEnoughBytes and no byte slice.
 func (queue *PacketQueue) Bytes(n int) ([]byte, error) {
 	queue.Lock()
 	defer queue.Unlock()
 
 	if n == 0 {
 		return []byte{}, nil
+	}
+
+	// n is usually a length sent by the server - do not allocate it
+	// before it is known that this many bytes have been received.
+	if n > queue.unread() {
+		queue.indexPacket = len(queue.queue)
+		queue.indexData = 0
+		return nil, ErrNotEnoughBytes
 	}
 
 	bs := make([]byte, n)
@@ -199,7 +215,10 @@ func (queue *PacketQueue) Bytes(n int) ([]byte, error) {
 // Byte implements the tds.BytesChannel interface.
 func (queue *PacketQueue) Byte() (byte, error) {
 	bs, err := queue.Bytes(1)
-	return bs[0], err
+	if err != nil {
+		return 0, err
+	}
+	return bs[0], nil
 }
 
 // Uint8 implements the tds.BytesChannel interface.
@@ -217,7 +236,10 @@ func (queue *PacketQueue) Int8() (int8, error) {
 // Uint16 implements the tds.BytesChannel interface.
 func (queue *PacketQueue) Uint16() (uint16, error) {
 	bs, err := queue.Bytes(2)
-	return endian.Uint16(bs), err
+	if err != nil {
+		return 0, err
+	}
+	return endian.Uint16(bs), nil
 }
 
 // Int16 implements the tds.BytesChannel interface.
@@ -229,7 +251,10 @@ func (queue *PacketQueue) Int16() (int16, error) {
 // Uint32 implements the tds.BytesChannel interface.
 func (queue *PacketQueue) Uint32() (uint32, error) {
 	bs, err := queue.Bytes(4)
-	return endian.Uint32(bs), err
+	if err != nil {
+		return 0, err
+	}
+	return endian.Uint32(bs), nil
 }
 
 // Int32 implements the tds.BytesChannel interface.
@@ -241,7 +266,10 @@ func (queue *PacketQueue) Int32() (int32, error) {
 // Uint64 implements the tds.BytesChannel interface.
 func (queue *PacketQueue) Uint64() (uint64, error) {
 	bs, err := queue.Bytes(8)
-	return endian.Uint64(bs), err
+	if err != nil {
+		return 0, err
+	}
+	return endian.Uint64(bs), nil
 }
 
 // Int64 implements the tds.BytesChannel interface.
